@@ -234,6 +234,17 @@ CHECKS = {
          'change, error formals follow ISO 8.17.1.3; after each successful change of double_quotes, occurs_check or unknown the flag\'s '
          'effect on reading "ab", on X = f(X) and on calling an undefined predicate is observed.',
     note='Goal text reaches the machine as a double-quoted literal, so pl/vt.pl normalises it under every double_quotes mode.'),
+ 'C43': dict(
+    level='exploration',
+    technique='runtime monitoring: history monitor with an ISO 8.14.3 reference model of the operator table, seeded from the machine\'s own pristine current_op/3 dump; reader probes as second observation point',
+    text='Histories of 1-25 op/3 calls (valid, removing, redefining predefined operators, name lists, protected names, bar, bad '
+         'priorities/specifiers/names, unbound arguments) run on fresh machines; after every call the current_op/3 enumeration must '
+         'equal the model table as a set without duplicates, a rejected call must raise one of the errors that apply and leave the '
+         'table unchanged, name-/specifier-/priority-bound current_op/3 reads must equal the filtered enumeration, bad current_op/3 '
+         'arguments must raise; after every 4th call and at the end the reader is probed with infix, prefix and postfix uses of every '
+         'name and must parse exactly what the table allows.',
+    note='All goal text is operator-free (helpers loaded while the table is pristine) because histories remove predefined operators. '
+         'op(P,T,[]) is accepted either as the empty list of names or as the protected name [].'),
 }
 
 NOT_APPLICABLE_REASON_UNBUILT = ('check designed in DESIGN.md but not built/validated yet in this session; '
